@@ -1,5 +1,418 @@
 import Astria.Relayer.Model
-/- Theorems for area `batch` (stub). -/
+/-
+  Theorems about the batching model, for all block streams, all `csize`, all filters, all
+  namespace functions, all limits.
+-/
 namespace Astria.Relayer
+
+/-! ### association list of per-namespace entries -/
+
+def keys (l : List (String × List RData)) : List String := l.map (·.1)
+
+theorem dataFor_nil_of_not_mem (n : String) (l : List (String × List RData)) (h : n ∉ keys l) :
+    dataFor n l = [] := by
+  induction l with
+  | nil => rfl
+  | cons p rest ih =>
+    simp only [keys, List.map_cons, List.mem_cons, not_or] at h
+    have ih' := ih (by simpa [keys] using h.2)
+    have hne : ¬ p.1 = n := fun e => h.1 e.symm
+    simp [dataFor, hne] at ih' ⊢
+    exact ih'
+
+theorem mem_keys_pushData (n m : String) (e : RData) (l : List (String × List RData)) :
+    m ∈ keys (pushData n e l) ↔ m = n ∨ m ∈ keys l := by
+  induction l with
+  | nil => simp [pushData, keys]
+  | cons p rest ih =>
+    obtain ⟨k, es⟩ := p
+    unfold pushData
+    by_cases hk : k = n
+    · subst hk
+      simp [keys]
+    · simp only [hk, if_false]
+      simp only [keys, List.map_cons, List.mem_cons] at ih ⊢
+      rw [ih]
+      constructor
+      · rintro (h | h | h)
+        · exact Or.inr (Or.inl h)
+        · exact Or.inl h
+        · exact Or.inr (Or.inr h)
+      · rintro (h | h | h)
+        · exact Or.inr (Or.inl h)
+        · exact Or.inl h
+        · exact Or.inr (Or.inr h)
+
+theorem nodup_pushData (n : String) (e : RData) (l : List (String × List RData))
+    (h : (keys l).Nodup) : (keys (pushData n e l)).Nodup := by
+  induction l with
+  | nil => simp [pushData, keys]
+  | cons p rest ih =>
+    obtain ⟨k, es⟩ := p
+    unfold pushData
+    simp only [keys, List.map_cons, List.nodup_cons] at h
+    by_cases hk : k = n
+    · subst hk
+      simpa [keys] using h
+    · simp only [hk, if_false, keys, List.map_cons, List.nodup_cons]
+      refine ⟨?_, ih h.2⟩
+      intro hm
+      have := (mem_keys_pushData n k e rest).1 (by simpa [keys] using hm)
+      rcases this with h1 | h1
+      · exact hk h1
+      · exact h.1 (by simpa [keys] using h1)
+
+theorem dataFor_cons (n : String) (p : String × List RData) (l : List (String × List RData)) :
+    dataFor n (p :: l) = (if p.1 = n then p.2 else []) ++ dataFor n l := by
+  simp [dataFor]
+
+theorem dataFor_pushData (n m : String) (e : RData) (l : List (String × List RData))
+    (h : (keys l).Nodup) :
+    dataFor m (pushData n e l) = dataFor m l ++ (if n = m then [e] else []) := by
+  induction l with
+  | nil =>
+    by_cases hnm : n = m <;> simp [pushData, dataFor, hnm]
+  | cons p rest ih =>
+    obtain ⟨k, es⟩ := p
+    simp only [keys, List.map_cons, List.nodup_cons] at h
+    unfold pushData
+    by_cases hk : k = n
+    · subst hk
+      simp only [if_true, dataFor_cons]
+      by_cases hkm : k = m
+      · subst hkm
+        have hr : dataFor k rest = [] := dataFor_nil_of_not_mem k rest (by simpa [keys] using h.1)
+        simp [hr]
+      · simp [hkm]
+    · simp only [hk, if_false, dataFor_cons]
+      rw [ih h.2]
+      simp [List.append_assoc]
+
+/-! ### `Input::extend_from_sequencer_block` -/
+
+theorem addRollup_fields (cfg : Cfg) (i : Input) (e : RData) :
+    (i.addRollup cfg e).metadata = i.metadata ∧ (i.addRollup cfg e).heights = i.heights ∧
+    (i.addRollup cfg e).seqNs = i.seqNs := by
+  unfold Input.addRollup
+  split <;> simp
+
+theorem foldl_addRollup_fields (cfg : Cfg) (es : List RData) (i : Input) :
+    (es.foldl (Input.addRollup cfg) i).metadata = i.metadata ∧
+    (es.foldl (Input.addRollup cfg) i).heights = i.heights ∧
+    (es.foldl (Input.addRollup cfg) i).seqNs = i.seqNs := by
+  induction es generalizing i with
+  | nil => simp
+  | cons e rest ih =>
+    simp only [List.foldl_cons]
+    have h1 := ih (i.addRollup cfg e)
+    have h2 := addRollup_fields cfg i e
+    exact ⟨h1.1.trans h2.1, h1.2.1.trans h2.2.1, h1.2.2.trans h2.2.2⟩
+
+theorem addRollup_nodup (cfg : Cfg) (i : Input) (e : RData) (h : (keys i.rollupData).Nodup) :
+    (keys (i.addRollup cfg e).rollupData).Nodup := by
+  unfold Input.addRollup
+  split
+  · exact nodup_pushData _ _ _ h
+  · exact h
+
+theorem addRollup_dataFor (cfg : Cfg) (i : Input) (e : RData) (n : String)
+    (h : (keys i.rollupData).Nodup) :
+    dataFor n (i.addRollup cfg e).rollupData =
+      dataFor n i.rollupData ++
+        (if (shouldInclude cfg.filter e.rollup && decide (cfg.ns e.rollup = n)) = true then [e] else []) := by
+  unfold Input.addRollup
+  by_cases hs : shouldInclude cfg.filter e.rollup = true
+  · simp only [hs, if_true, Bool.true_and, decide_eq_true_eq]
+    exact dataFor_pushData _ _ _ _ h
+  · simp [hs]
+
+theorem foldl_addRollup_data (cfg : Cfg) (es : List RData) (i : Input) (n : String)
+    (h : (keys i.rollupData).Nodup) :
+    (keys (es.foldl (Input.addRollup cfg) i).rollupData).Nodup ∧
+    dataFor n (es.foldl (Input.addRollup cfg) i).rollupData =
+      dataFor n i.rollupData ++
+        es.filter (fun e => shouldInclude cfg.filter e.rollup && decide (cfg.ns e.rollup = n)) := by
+  induction es generalizing i with
+  | nil => simp [h]
+  | cons e rest ih =>
+    simp only [List.foldl_cons]
+    have h1 := ih (i.addRollup cfg e) (addRollup_nodup cfg i e h)
+    refine ⟨h1.1, ?_⟩
+    rw [h1.2, addRollup_dataFor cfg i e n h, List.filter_cons]
+    split <;> simp
+
+theorem extend_metadata (cfg : Cfg) (i : Input) (b : Block) :
+    (i.extend cfg b).metadata = i.metadata ++ [b.md] := by
+  unfold Input.extend
+  exact (foldl_addRollup_fields cfg b.rollups _).1
+
+theorem extend_heights (cfg : Cfg) (i : Input) (b : Block) :
+    (i.extend cfg b).heights = insertSorted b.height i.heights := by
+  unfold Input.extend
+  exact (foldl_addRollup_fields cfg b.rollups _).2.1
+
+theorem extend_seqNs (cfg : Cfg) (i : Input) (b : Block) :
+    (i.extend cfg b).seqNs = some (i.seqNs.getD b.md.chainNs) := by
+  unfold Input.extend
+  exact (foldl_addRollup_fields cfg b.rollups _).2.2
+
+theorem extend_data (cfg : Cfg) (i : Input) (b : Block) (n : String)
+    (h : (keys i.rollupData).Nodup) :
+    (keys (i.extend cfg b).rollupData).Nodup ∧
+    dataFor n (i.extend cfg b).rollupData = dataFor n i.rollupData ++ blockData cfg n b := by
+  unfold Input.extend blockData
+  exact foldl_addRollup_data cfg b.rollups _ n h
+
+/-! ### the height set (`BTreeSet`) -/
+
+theorem mem_insertSorted (h x : Nat) (l : List Nat) : x ∈ insertSorted h l ↔ x = h ∨ x ∈ l := by
+  induction l with
+  | nil => simp [insertSorted]
+  | cons y ys ih =>
+    unfold insertSorted
+    by_cases h1 : h < y
+    · simp [h1]
+    · by_cases h2 : h = y
+      · subst h2; simp
+      · simp only [h1, h2, if_false, List.mem_cons, ih]
+        constructor
+        · rintro (a | a | a)
+          · exact Or.inr (Or.inl a)
+          · exact Or.inl a
+          · exact Or.inr (Or.inr a)
+        · rintro (a | a | a)
+          · exact Or.inr (Or.inl a)
+          · exact Or.inl a
+          · exact Or.inr (Or.inr a)
+
+theorem sorted_insertSorted (h : Nat) (l : List Nat) (hs : l.Pairwise (· < ·)) :
+    (insertSorted h l).Pairwise (· < ·) := by
+  induction l with
+  | nil => simp [insertSorted]
+  | cons y ys ih =>
+    unfold insertSorted
+    rw [List.pairwise_cons] at hs
+    by_cases h1 : h < y
+    · simp only [h1, if_true, List.pairwise_cons]
+      refine ⟨?_, hs⟩
+      intro a ha
+      rcases List.mem_cons.1 ha with e | e
+      · omega
+      · have := hs.1 a e; omega
+    · by_cases h2 : h = y
+      · subst h2
+        simp only [Nat.lt_irrefl, if_false, if_true, List.pairwise_cons]
+        exact hs
+      · simp only [h1, h2, if_false, List.pairwise_cons]
+        refine ⟨?_, ih hs.2⟩
+        intro a ha
+        rcases (mem_insertSorted h a ys).1 ha with e | e
+        · omega
+        · exact hs.1 a e
+
+/-- the last element of a strictly increasing list bounds every element -/
+theorem le_getLast_of_sorted (l : List Nat) (hs : l.Pairwise (· < ·)) (g : Nat)
+    (hg : l.getLast? = some g) : g ∈ l ∧ ∀ x ∈ l, x ≤ g := by
+  induction l with
+  | nil => simp at hg
+  | cons y ys ih =>
+    rw [List.pairwise_cons] at hs
+    cases ys with
+    | nil =>
+      simp at hg
+      subst hg
+      simp
+    | cons z zs =>
+      have hg' : (z :: zs).getLast? = some g := by simpa [List.getLast?_cons_cons] using hg
+      have := ih hs.2 hg'
+      refine ⟨List.mem_cons_of_mem _ this.1, ?_⟩
+      intro x hx
+      rcases List.mem_cons.1 hx with e | e
+      · have := hs.1 g this.1; omega
+      · exact this.2 x e
+
+/-- the height set is the strictly sorted set of the metadata heights -/
+def Input.HeightsOK (i : Input) : Prop :=
+  i.heights.Pairwise (· < ·) ∧ ∀ x, x ∈ i.heights ↔ ∃ m ∈ i.metadata, m.height = x
+
+theorem extend_heightsOK (cfg : Cfg) (i : Input) (b : Block) (h : i.HeightsOK) :
+    (i.extend cfg b).HeightsOK := by
+  unfold Input.HeightsOK
+  rw [extend_heights, extend_metadata]
+  refine ⟨sorted_insertSorted _ _ h.1, ?_⟩
+  intro x
+  rw [mem_insertSorted, h.2 x]
+  constructor
+  · rintro (e | ⟨m, hm, e⟩)
+    · exact ⟨b.md, by simp, by simp [e, Block.height]⟩
+    · exact ⟨m, by simp [hm], e⟩
+  · rintro ⟨m, hm, e⟩
+    rcases List.mem_append.1 hm with hm | hm
+    · exact Or.inr ⟨m, hm, e⟩
+    · simp at hm
+      subst hm
+      exact Or.inl (by simp [← e, Block.height])
+
+/-! ### `NextSubmission` -/
+
+/-- Well-formedness of an accumulated batch: either completely empty, or the payload is
+    exactly what `try_into_payload` makes of the input, within the limit. -/
+def Next.WF (cfg : Cfg) (s : Next) : Prop :=
+  (s.input = {} ∧ s.payload = {}) ∨
+  (s.input.metadata ≠ [] ∧ s.input.tryIntoPayload cfg = .ok s.payload ∧ s.payload.size ≤ cfg.max ∧
+    (keys s.input.rollupData).Nodup ∧ s.input.HeightsOK)
+
+theorem wf_empty (cfg : Cfg) : Next.WF cfg {} := Or.inl ⟨rfl, rfl⟩
+
+theorem nodup_of_wf (cfg : Cfg) (s : Next) (h : s.WF cfg) : (keys s.input.rollupData).Nodup := by
+  rcases h with ⟨hi, _⟩ | ⟨_, _, _, hn, _⟩
+  · rw [hi]; simp [keys]
+  · exact hn
+
+theorem heightsOK_of_wf (cfg : Cfg) (s : Next) (h : s.WF cfg) : s.input.HeightsOK := by
+  rcases h with ⟨hi, _⟩ | ⟨_, _, _, _, hh⟩
+  · rw [hi]; simp [Input.HeightsOK]
+  · exact hh
+
+/-- a successful `try_into_payload` yields a non-empty blob list that is `Input.blobs` -/
+theorem tryIntoPayload_ok (cfg : Cfg) (i : Input) (p : Payload) (h : i.tryIntoPayload cfg = .ok p) :
+    ∃ s, i.seqNs = some s ∧ p.blobs = i.blobs s ∧ cfg.csize p.blobs = some p.size := by
+  unfold Input.tryIntoPayload at h
+  split at h
+  · simp at h
+  · rename_i s hs
+    split at h
+    · simp at h
+    · rename_i n hn
+      simp only [Except.ok.injEq] at h
+      subst h
+      exact ⟨s, hs, rfl, hn⟩
+
+theorem blobs_ne_nil (i : Input) (s : String) : i.blobs s ≠ [] := by simp [Input.blobs]
+
+theorem tryAdd_of_error (cfg : Cfg) (s : Next) (b : Block) (e : PayloadErr)
+    (hp : (s.input.extend cfg b).tryIntoPayload cfg = .error e) :
+    s.tryAdd cfg b = (s, .intoPayload e) := by
+  simp only [Next.tryAdd, hp]
+
+theorem tryAdd_of_ok (cfg : Cfg) (s : Next) (b : Block) (p : Payload)
+    (hp : (s.input.extend cfg b).tryIntoPayload cfg = .ok p) :
+    s.tryAdd cfg b =
+      if p.size ≤ cfg.max then (⟨s.input.extend cfg b, p⟩, .ok)
+      else if (s.input.extend cfg b).numBlocks = 1 then (s, .oversized b.height p.size)
+      else (s, .full b) := by
+  simp only [Next.tryAdd, hp]
+
+/-- Everything `try_add` can do. -/
+theorem tryAdd_cases (cfg : Cfg) (s : Next) (b : Block) :
+    ((s.tryAdd cfg b).2 = .ok ∧ ∃ p, (s.input.extend cfg b).tryIntoPayload cfg = .ok p ∧ p.size ≤ cfg.max ∧
+        (s.tryAdd cfg b).1 = ⟨s.input.extend cfg b, p⟩) ∨
+    ((s.tryAdd cfg b).2 = .full b ∧ (s.tryAdd cfg b).1 = s ∧ s.input.metadata ≠ [] ∧
+        ∃ p, (s.input.extend cfg b).tryIntoPayload cfg = .ok p ∧ cfg.max < p.size) ∨
+    ((∃ sz, (s.tryAdd cfg b).2 = .oversized b.height sz ∧ cfg.max < sz ∧
+        ∃ p, (s.input.extend cfg b).tryIntoPayload cfg = .ok p ∧ p.size = sz) ∧
+        (s.tryAdd cfg b).1 = s ∧ s.input.metadata = []) ∨
+    ((∃ e, (s.tryAdd cfg b).2 = .intoPayload e ∧ (s.input.extend cfg b).tryIntoPayload cfg = .error e) ∧
+        (s.tryAdd cfg b).1 = s) := by
+  cases hp : (s.input.extend cfg b).tryIntoPayload cfg with
+  | error e =>
+    right; right; right
+    rw [tryAdd_of_error cfg s b e hp]
+    exact ⟨⟨e, rfl, rfl⟩, rfl⟩
+  | ok p =>
+    rw [tryAdd_of_ok cfg s b p hp]
+    have hlen : (s.input.extend cfg b).numBlocks = s.input.metadata.length + 1 := by
+      simp [Input.numBlocks, extend_metadata]
+    by_cases h1 : p.size ≤ cfg.max
+    · left
+      rw [if_pos h1]
+      exact ⟨rfl, p, rfl, h1, rfl⟩
+    · rw [if_neg h1]
+      by_cases h2 : (s.input.extend cfg b).numBlocks = 1
+      · right; right; left
+        rw [if_pos h2]
+        refine ⟨⟨p.size, rfl, by omega, p, rfl, rfl⟩, rfl, ?_⟩
+        have : s.input.metadata.length = 0 := by omega
+        exact List.eq_nil_of_length_eq_zero this
+      · right; left
+        rw [if_neg h2]
+        refine ⟨rfl, rfl, ?_, p, rfl, by omega⟩
+        intro he
+        rw [hlen, he] at h2
+        simp at h2
+
+/-- `try_add` into an EMPTY batch never answers `Full`: a block that is too large alone is a
+    hard error (`OversizedBlock`), never bounced back as pending. -/
+theorem tryAdd_empty_not_full (cfg : Cfg) (s : Next) (b b' : Block) (h : s.input.metadata = []) :
+    (s.tryAdd cfg b).2 ≠ .full b' := by
+  have hc := tryAdd_cases cfg s b
+  rcases hc with ⟨h1, _⟩ | ⟨_, _, h3, _⟩ | ⟨⟨sz, h1, _⟩, _⟩ | ⟨⟨e, h1, _⟩, _⟩
+  · rw [h1]; simp
+  · exact absurd h h3
+  · rw [h1]; simp
+  · rw [h1]; simp
+
+theorem tryAdd_wf (cfg : Cfg) (s : Next) (b : Block) (h : s.WF cfg) : (s.tryAdd cfg b).1.WF cfg := by
+  have hc := tryAdd_cases cfg s b
+  rcases hc with ⟨_, p, hp, hle, hs⟩ | ⟨_, hs, _⟩ | ⟨_, hs, _⟩ | ⟨_, hs⟩
+  · rw [hs]
+    right
+    refine ⟨?_, hp, hle, (extend_data cfg s.input b "" (nodup_of_wf cfg s h)).1,
+      extend_heightsOK cfg s.input b (heightsOK_of_wf cfg s h)⟩
+    simp [extend_metadata]
+  · rw [hs]; exact h
+  · rw [hs]; exact h
+  · rw [hs]; exact h
+
+/-- `take` resets the batch; what it hands out is a well-formed, non-empty batch. -/
+theorem take_cases (cfg : Cfg) (s : Next) (h : s.WF cfg) :
+    (s.take).1 = {} ∧
+    (((s.take).2 = none ∧ s.input = {} ∧ s.payload = {}) ∨
+     ((s.take).2 = some ⟨s.input, s.payload⟩ ∧ s.input.metadata ≠ [])) := by
+  unfold Next.take
+  rcases h with ⟨hi, hp⟩ | ⟨hne, hpay, _, _, _⟩
+  · simp [hp, hi]
+  · obtain ⟨ns, _, hb, _⟩ := tryIntoPayload_ok cfg s.input s.payload hpay
+    have : s.payload.blobs.isEmpty = false := by
+      rw [hb]; simp [Input.blobs]
+    simp [this, hne]
+
+/-! ### decode ∘ encode -/
+
+theorem decodeMeta_rollups (n : String) (l : List (String × List RData)) :
+    decodeMeta n (l.map (fun p => (⟨p.1, .rollupList p.2⟩ : Blob))) = [] := by
+  induction l with
+  | nil => rfl
+  | cons p rest ih =>
+    simp only [decodeMeta, List.map_cons, List.flatMap_cons] at ih ⊢
+    simp [ih]
+
+theorem decodeRollup_rollups (n : String) (l : List (String × List RData)) :
+    decodeRollup n (l.map (fun p => (⟨p.1, .rollupList p.2⟩ : Blob))) = dataFor n l := by
+  induction l with
+  | nil => rfl
+  | cons p rest ih =>
+    simp only [decodeRollup, dataFor, List.map_cons, List.flatMap_cons] at ih ⊢
+    rw [ih]
+
+/-- Decoding the blobs of an input the way conductor does gives back the entry lists:
+    the metadata list under the sequencer namespace, and for every namespace the stored
+    rollup entries. -/
+theorem decode_blobs (i : Input) (s : String) :
+    decodeMeta s (i.blobs s) = i.metadata ∧ ∀ n, decodeRollup n (i.blobs s) = dataFor n i.rollupData := by
+  constructor
+  · have := decodeMeta_rollups s i.rollupData
+    simp only [decodeMeta, Input.blobs, List.flatMap_cons] at this ⊢
+    simp [this]
+  · intro n
+    have := decodeRollup_rollups n i.rollupData
+    simp only [decodeRollup, Input.blobs, List.flatMap_cons] at this ⊢
+    simp [this]
+
+/-- a metadata blob under another namespace than the one asked for contributes nothing -/
+theorem decodeMeta_other (i : Input) (s n : String) (h : s ≠ n) : decodeMeta n (i.blobs s) = [] := by
+  have := decodeMeta_rollups n i.rollupData
+  simp only [decodeMeta, Input.blobs, List.flatMap_cons] at this ⊢
+  simp [this, h]
 
 end Astria.Relayer
